@@ -53,10 +53,14 @@ type step struct {
 }
 
 type opctx struct {
-	id, k, d int
-	n        int // store calls made
-	f, g     []int
-	cg       bool // the cache-operation gate (position 3) was used
+	id, k, d  int
+	n         int // store calls made
+	f, g      []int
+	cg        bool // the cache-operation gate (position 3) was used
+	ctx       context.Context
+	cancel    context.CancelFunc
+	cancelled bool
+	follow    *step // call to make in the same goroutine after this one returned
 }
 
 type world struct {
@@ -65,6 +69,7 @@ type world struct {
 	evs    []tr.E
 	store  map[int]int
 	gates  map[int]chan struct{}
+	out    map[int]*opctx // calls whose caller has not returned
 	lastOp map[int]*opctx // key id -> operation that last entered a store callback for it
 	grp    *mux.WorkerGrp
 	facs   []mux.CacheFacade // the real facades behind the logging wrappers
@@ -176,7 +181,7 @@ func (f *fac) gate(key interface{}) {
 }
 
 func newWorld(cfg config) *world {
-	wd := &world{cfg: cfg, store: map[int]int{}, gates: map[int]chan struct{}{}, lastOp: map[int]*opctx{}, kid: map[interface{}]int{},
+	wd := &world{cfg: cfg, store: map[int]int{}, gates: map[int]chan struct{}{}, lastOp: map[int]*opctx{}, out: map[int]*opctx{}, kid: map[interface{}]int{},
 		x: qx.New(0)}
 	for k := 1; k <= cfg.NK; k++ {
 		key := mkKey(cfg.KT, k)
@@ -310,6 +315,8 @@ func errName(err error) string {
 		return "qfull"
 	case mux.ErrClosed:
 		return "closed"
+	case context.Canceled:
+		return "canceled"
 	}
 	return "other:" + err.Error()
 }
